@@ -9,14 +9,14 @@ Proof. intros. unfold resent. apply flat_map_app. Qed.
 Lemma gaps_app : forall a b, gaps (a ++ b) = (gaps a ++ gaps b)%list.
 Proof. intros. unfold gaps. apply flat_map_app. Qed.
 
-Lemma resent_gap_before : forall n b last k, resent (gap_before n b last k) = [].
+Lemma resent_gap_before : forall b last k, resent (gap_before b last k) = [].
 Proof. intros. unfold gap_before. destruct (negb (last =? 0)); [destruct (last + 1 <? k)|destruct (b <? k)]; reflexivity. Qed.
 
 (* completeness and order: what is resent is exactly the list of records handed to the loop *)
-Lemma resent_plan_loop : forall recs n b last, resent (fst (plan_loop n b last recs)) = recs.
+Lemma resent_plan_loop : forall recs b last, resent (fst (plan_loop b last recs)) = recs.
 Proof.
-  induction recs as [|[k raw] r IH]; intros n b last; [reflexivity|].
-  cbn [plan_loop]. specialize (IH n b k). destruct (plan_loop n b k r) as [items last']. cbn [fst] in *.
+  induction recs as [|[k raw] r IH]; intros b last; [reflexivity|].
+  cbn [plan_loop]. specialize (IH b k). destruct (plan_loop b k r) as [items last']. cbn [fst] in *.
   rewrite resent_app, resent_gap_before. cbn [app resent flat_map]. fold (resent items). rewrite IH. reflexivity.
 Qed.
 
@@ -24,8 +24,8 @@ Theorem resent_plan : forall st n b e,
   resent (fst (plan st n b e)) = after (b - 1) (finish_of st e) st.
 Proof.
   intros. unfold plan.
-  pose proof (resent_plan_loop (after (b - 1) (finish_of st e) st) n b 0) as H.
-  destruct (plan_loop n b 0 (after (b - 1) (finish_of st e) st)) as [items last]. cbn [fst] in H.
+  pose proof (resent_plan_loop (after (b - 1) (finish_of st e) st) b 0) as H.
+  destruct (plan_loop b 0 (after (b - 1) (finish_of st e) st)) as [items last]. cbn [fst] in H.
   destruct (plan_final n b last) as [g nseq] eqn:PF. cbn [fst].
   rewrite resent_app, H. unfold plan_final in PF. destruct (last =? 0); inversion PF; subst; cbn; apply app_nil_r.
 Qed.
@@ -49,34 +49,59 @@ Proof.
     destruct (cur <? a) eqn:Q; [apply N.ltb_lt in Q|apply N.ltb_ge in Q]; lia.
 Qed.
 
-(* every gap fill sent from inside the loop carries n (= next_send) as its MsgSeqNum, and announces
-   the number of the record that follows it *)
-Lemma loop_gaps : forall recs n b last a k,
-  In (PGap a k) (fst (plan_loop n b last recs)) -> a = n /\ exists raw, In (k, raw) recs.
+(* the first number the loop has not accounted for yet *)
+Definition from_of (b last : N) : N := if last =? 0 then b else last + 1.
+
+Lemma gap_before_from : forall b last k,
+  gap_before b last k = if from_of b last <? k then [PGap (from_of b last) k] else [].
+Proof. intros. unfold gap_before, from_of. destruct (last =? 0); reflexivity. Qed.
+
+(* EVERY gap fill sent from inside the loop is exact, for all stores and ranges: its MsgSeqNum a is the first
+   number of a gap (a is where the replay stands: Begin, or the number after a resent record), its
+   NewSeqNo k is the number of the next record, and no record lies in [a, k) *)
+Theorem loop_gaps_exact : forall recs b last a k,
+  0 < from_of b last -> sorted_from (from_of b last - 1) recs = true ->
+  In (PGap a k) (fst (plan_loop b last recs)) ->
+  from_of b last <= a /\ a < k /\ (exists raw, In (k, raw) recs) /\
+  (forall k' raw', In (k', raw') recs -> ~ (a <= k' < k)) /\
+  (a = from_of b last \/ exists raw', In (a - 1, raw') recs).
 Proof.
-  induction recs as [|[k0 raw0] r IH]; intros n b last a k I; [destruct I|].
-  cbn [plan_loop] in I. specialize (IH n b k0 a k). destruct (plan_loop n b k0 r) as [items last']. cbn [fst] in *.
+  induction recs as [|[k0 raw0] r IH]; intros b last a k F S I; [destruct I|].
+  cbn [sorted_from] in S. apply andb_true_iff in S. destruct S as [S1 S2]. apply N.ltb_lt in S1.
+  cbn [plan_loop] in I. specialize (IH b k0 a k).
+  destruct (plan_loop b k0 r) as [items last']. cbn [fst] in *.
+  assert (F' : from_of b k0 = k0 + 1).
+  { unfold from_of. replace (k0 =? 0) with false by (symmetry; apply N.eqb_neq; lia). reflexivity. }
+  rewrite F' in IH. replace (k0 + 1 - 1) with k0 in IH by lia.
   apply in_app_or in I. destruct I as [I|I].
-  - unfold gap_before in I. destruct (negb (last =? 0)); [destruct (last + 1 <? k0)|destruct (b <? k0)];
-      try (destruct I as [I|[]]; inversion I; subst; split; [reflexivity|exists raw0; left; reflexivity]); destruct I.
-  - destruct I as [I|I]; [discriminate|]. destruct (IH I) as (A & raw & J). split; [exact A|]. exists raw. right. exact J.
+  - rewrite gap_before_from in I. destruct (from_of b last <? k0) eqn:G; [|destruct I].
+    apply N.ltb_lt in G. destruct I as [I|[]]. inversion I; subst a k.
+    split; [lia|]. split; [exact G|]. split; [exists raw0; left; reflexivity|]. split; [|left; reflexivity].
+    intros k' raw' J. destruct J as [J|J]; [inversion J; subst; lia|].
+    pose proof (sorted_from_lt _ _ _ _ S2 J). lia.
+  - destruct I as [I|I]; [discriminate|].
+    destruct (IH ltac:(lia) S2 I) as (A1 & A2 & (raw & A3) & A4 & A5).
+    split; [lia|]. split; [exact A2|]. split; [exists raw; right; exact A3|]. split.
+    + intros k' raw' J. destruct J as [J|J]; [inversion J; subst; lia|]. eapply A4; eauto.
+    + right. destruct A5 as [A5|(raw' & A5)]; [exists raw0; left; subst a; f_equal; lia|exists raw'; right; exact A5].
 Qed.
 
 (* the plan ends with a gap fill whose NewSeqNo is the next_send left behind *)
 Theorem plan_ends : forall st n b e,
   exists items x, fst (plan st n b e) = (items ++ [PGap x (snd (plan st n b e))])%list.
 Proof.
-  intros. unfold plan. destruct (plan_loop n b 0 _) as [items last].
+  intros. unfold plan. destruct (plan_loop b 0 _) as [items last].
   unfold plan_final. destruct (last =? 0); cbn [fst snd]; eexists; eexists; reflexivity.
 Qed.
 
-(* scenario #3 in front: the first stored number in the range is above Begin *)
+(* scenario #3 in front: the first stored number k in the range is above Begin: the answer starts with the
+   gap fill Begin -> k *)
 Theorem plan_starts_with_gap : forall st n b e k raw rest,
   after (b - 1) (finish_of st e) st = (k, raw) :: rest -> b < k ->
-  exists items, fst (plan st n b e) = PGap n k :: PMsg k raw :: items.
+  exists items, fst (plan st n b e) = PGap b k :: PMsg k raw :: items.
 Proof.
   intros st n b e k raw rest A L. unfold plan. rewrite A. cbn [plan_loop].
-  destruct (plan_loop n b k rest) as [items last]. destruct (plan_final n b last) as [g nseq]. cbn [fst].
+  destruct (plan_loop b k rest) as [items last]. destruct (plan_final n b last) as [g nseq]. cbn [fst].
   unfold gap_before. cbn [N.eqb negb]. replace (b <? k) with true by (symmetry; apply N.ltb_lt; exact L).
   eexists. cbn [app]. reflexivity.
 Qed.
